@@ -127,7 +127,8 @@ def derived_cases(draw, tier):
     steps = []
     for _ in range(draw(st.integers(2, 4))):
         steps.append({"p": [draw(params_for()) for _ in range(k)],
-                      "how": draw(st.sampled_from(["replace", "replace", "bind", "fresh"])),
+                      "how": draw(st.sampled_from(["replace", "replace", "bind", "bind", "fresh"])),
+                      "forms": [draw(st.sampled_from(["t", "t", "2t", "t+s", "t/2", "-t"])) for _ in range(k)],
                       "read": draw(st.booleans()), "read_dagger": draw(st.booleans())})
     return {"g": nm, "steps": steps}
 
@@ -148,15 +149,34 @@ def o_derived(spec):
             if stp["how"] == "replace":
                 g = must(lambda: g.replace_params(tuple(ps)), "replace_params")
             elif stp["how"] == "bind":
-                sg = must(lambda: g.replace_params(tuple(syms)), "replace_params(symbols)")
-                if stp["read"]:
-                    must(lambda: sg.matrix, "symbolic matrix")
-                g = must(lambda: sg.bind(dict(zip(syms, ps))), "bind")
+                # the parameter written symbolically: a bare symbol or a small expression whose value is the wanted angle
+                exprs, values = [], {}
+                for j, (form, val) in enumerate(zip(stp.get("forms") or ["t"] * len(ps), ps)):
+                    t_, s_ = syms[j], sympy.Symbol("s%d" % j)
+                    if form == "2t":
+                        exprs.append(2 * t_); values[t_] = val / 2
+                    elif form == "t+s":
+                        exprs.append(t_ + s_); values[t_] = val - 0.25; values[s_] = 0.25
+                    elif form == "t/2":
+                        exprs.append(t_ / 2); values[t_] = val * 2
+                    elif form == "-t":
+                        exprs.append(-t_); values[t_] = -val
+                    else:
+                        exprs.append(t_); values[t_] = val
+                sg = must(lambda: g.replace_params(tuple(exprs)), "replace_params(symbolic expressions)")
+                if stp["read"] or any(f != "t" for f in stp.get("forms") or []):
+                    Ms = must(lambda: sg.matrix, f"{nm}.matrix with symbolic parameters {exprs}")
+                    Msn = ref.npm(sympy.N(sympy.Matrix(Ms).xreplace({kk: sympy.Float(vv) for kk, vv in values.items()}), 20))
+                    Rs = ref.closed(nm, [float(sympy.sympify(e).xreplace({kk: sympy.Float(vv) for kk, vv in values.items()})) for e in exprs])
+                    require(ref.close(Msn, Rs, 1e-8), lambda: f"{nm} with symbolic parameters {exprs}: the matrix evaluated at {values} differs from the closed form, max|d|={ref.maxdiff(Msn, Rs):.3g}")
+                    cl.add("symbolic_expression_parameter")
+                g = must(lambda: sg.bind(values), "bind")
+                ps = [float(x) for x in g.params]
             else:
                 g = cgen.build_base({"g": nm, "p": ps})
             if read_before and stp["how"] != "fresh":
                 cl.add("derived_after_matrix_read")
-        require(tuple(float(x) for x in g.params) == tuple(float(x) for x in ps), lambda: f"{nm}: params {g.params} after step {i}, expected {ps}")
+        require(all(abs(float(x) - float(y)) <= 1e-12 * max(1.0, abs(float(y))) for x, y in zip(g.params, stp["p"])) and len(g.params) == len(ps), lambda: f"{nm}: params {g.params} after step {i}, expected {stp['p']}")
         M = must(lambda: ref.npm(g.matrix), f"{nm}.matrix")
         R = ref.closed(nm, ps)
         require(M.shape == (2 ** k, 2 ** k), lambda: f"{nm} matrix shape {M.shape}")
